@@ -9,14 +9,108 @@ import (
 	"time"
 
 	"github.com/relab/gorums"
+	"github.com/relab/gorums/ordering"
 	"pgregory.net/rapid"
 
 	"verif/peng"
+	"verif/puppet"
 	"verif/scen"
 	"verif/vt"
 )
 
-func gen(t *rapid.T) peng.Case {
+// Case is a call sequence against the puppet cluster, or (Hostile != nil) against a node that
+// answers some requests with replies that name another method.
+type Case struct {
+	peng.Case
+	Hostile *Hostile `json:"hostile,omitempty"`
+}
+
+// Hostile is a sequence of calls to one node behind a raw server; Mismatch[i] says whether the
+// reply to call i names another method (the call then ends with that node's Internal error).
+type Hostile struct {
+	Kinds    []string `json:"kinds"`
+	Mismatch []bool   `json:"mismatch"`
+}
+
+var hostileKinds = []string{"RPC", "QC", "QCCustom", "QCPerNode", "Async", "AsyncCustom", "Corr", "CorrCustom", "CorrStream"}
+
+func gen(t *rapid.T) Case {
+	if rapid.IntRange(0, 19).Draw(t, "hostile") == 0 {
+		n := rapid.IntRange(1, 12).Draw(t, "hostileCalls")
+		h := &Hostile{}
+		for i := 0; i < n; i++ {
+			h.Kinds = append(h.Kinds, rapid.SampledFrom(hostileKinds).Draw(t, fmt.Sprintf("hkind%d", i)))
+			h.Mismatch = append(h.Mismatch, rapid.IntRange(0, 2).Draw(t, fmt.Sprintf("hmis%d", i)) != 0)
+		}
+		return Case{Hostile: h}
+	}
+	return Case{Case: genProgram(t)}
+}
+
+// runHostile: calls that end because the node answered under another method's name are calls
+// that ended by a node error like any other: no routing entry may stay behind.
+func runHostile(h *Hostile) vt.Verdict {
+	cl := scen.NewCluster(1, 0)
+	defer cl.Shutdown()
+	srv := scen.StartHostileServer(cl, func(n int32, req *gorums.Message) [][]byte {
+		i := int(n) - 1
+		if i >= len(h.Mismatch) || !h.Mismatch[i] {
+			return nil
+		}
+		other := "puppet.Puppet.RPC"
+		if req.Metadata.GetMethod() == other {
+			other = "puppet.Puppet.QC"
+		}
+		out, err := gorums.NewCodec().Marshal(&gorums.Message{Metadata: &ordering.Metadata{MessageID: req.Metadata.GetMessageID(), Method: other}, Message: &puppet.Rep{}})
+		if err != nil {
+			return nil
+		}
+		return [][]byte{out}
+	})
+	defer srv.Stop()
+	client, err := scen.NewClient(cl, scen.MgrOpts{})
+	if err != nil {
+		return vt.Verdict{OK: true, Inconclusive: true, Msg: err.Error(), Classes: []string{"setup-error"}}
+	}
+	defer client.Close(scen.B)
+	tok := scen.NewTokens(len(h.Kinds))
+	mism := 0
+	for i, kind := range h.Kinds {
+		call := client.NewCall(i, tok+uint64(i), uint64(i+1), scen.CallSpec{Kind: kind, Node: 0, Ctx: "deadline", DeadlineUs: 100000, Script: scen.QScript{Kind: "threshold", Q: 1}})
+		pan := make(chan any, 1)
+		go func() {
+			defer func() { pan <- recover() }()
+			call.Issue()
+		}()
+		if p := <-pan; p != nil {
+			return vt.Fail("C18/hostile/caller-panic", "a %s call panicked when the node answered under another method's name: %v", kind, p)
+		}
+		if r, _ := scen.Await(call.DoneCh(), scen.B); r != scen.Done {
+			call.Cancel()
+			return vt.Verdict{OK: true, Inconclusive: true, Msg: "call did not end in time"}
+		}
+		if h.Mismatch[i] {
+			mism++
+		}
+	}
+	node := client.Node(0)
+	deadline := time.Now().Add(scen.B)
+	left := 0
+	for {
+		left = gorums.VerifRouterCount(node.RawNode)
+		if left == 0 || time.Now().After(deadline) {
+			break
+		}
+		time.Sleep(2 * time.Millisecond)
+	}
+	if left > 0 {
+		ids, streaming := gorums.VerifRouterIDs(node.RawNode)
+		return vt.Fail("C18/routing-entries-remain/reply-named-other-method", "%v after %d calls ended (%d of them because the node's reply named another method) %d per-call routing entries remain: message ids %v (stream %v)", scen.B, len(h.Kinds), mism, left, ids, streaming)
+	}
+	return vt.Pass(mism > 0, "hostile-node", fmt.Sprintf("replies-naming-another-method=%d", mism))
+}
+
+func genProgram(t *rapid.T) peng.Case {
 	c := peng.GenProgram(t, peng.Bias{MinN: 1, MaxN: 4, MaxThreads: 4, MinOps: 10, MaxOps: 120, MaxMgrs: 1, Kinds: scen.AllKinds, Barriers: true,
 		Cancel: true, MaxSleepUs: 1500, SlowQFUs: 500, StreamItems: 4, AwaitProb: 3, ErrorNodes: true, FullQuorum: true, ReleaseModes: []string{"", "early"}})
 	c.Probe = true // the fence: an RPC to every node after everything has answered
@@ -76,7 +170,11 @@ func measure(r *peng.Result) residue {
 	return res
 }
 
-func run(c peng.Case) vt.Verdict {
+func run(cc Case) vt.Verdict {
+	if cc.Hostile != nil {
+		return runHostile(cc.Hostile)
+	}
+	c := cc.Case
 	var final residue
 	var waited bool
 	r := peng.Run(c, peng.Hooks{BeforeTeardown: func(r *peng.Result) {
@@ -196,9 +294,9 @@ func run(c peng.Case) vt.Verdict {
 }
 
 func TestProp(t *testing.T) {
-	vt.Main(t, vt.Spec[peng.Case]{
+	vt.Main(t, vt.Spec[Case]{
 		ID:           "C18",
-		Rule:         "rapid-generated sequences of 10-120 calls of all 20 kinds from 1-4 threads, each ending in a generated way (quorum before all replies, exhaustion, cancellation/deadline before or after the send, node error, correctable done, stream abandoned, zero targets, future never read), in half of the cases with seeded jitter at the statement-level yield points of the instrumented runtime; in a third of the cases one node unreachable since it was registered; after the sequence every handler has returned (all gates open), every call has ended and a fence RPC to every node has completed; then, polling up to the hang bound, the number of routing entries of every node (read-only accessor injected at build time) must be 0 and no goroutine may sit in a per-call frame (async handler, correctable handler, send watcher); non-trivial (measured) = at least 3 distinct ways of ending in the sequence",
+		Rule:         "rapid-generated sequences of 10-120 calls of all 20 kinds from 1-4 threads, each ending in a generated way (quorum before all replies, exhaustion, cancellation/deadline before or after the send, node error, correctable done, stream abandoned, zero targets, future never read), in half of the cases with seeded jitter at the statement-level yield points of the instrumented runtime; in a third of the cases one node unreachable since it was registered; 1 case in 20 instead makes 1-12 calls of 9 kinds to a node behind a raw server that answers two thirds of them under another method's name (the calls end with that node's error); after the sequence every handler has returned (all gates open), every call has ended and a fence RPC to every node has completed; then, polling up to the hang bound, the number of routing entries of every node (read-only accessor injected at build time) must be 0 and no goroutine may sit in a per-call frame (async handler, correctable handler, send watcher); non-trivial (measured) = at least 3 distinct ways of ending in the sequence",
 		Gen:          gen,
 		Run:          run,
 		TrackCurrent: true,
